@@ -132,6 +132,42 @@ func genC14(p *Plan, r *RNG) {
 		}
 		p.Flavor = "e2e+loss"
 	}
+	if p.Cfg.Listener != "tcp" && r.Chance(1, 4) {
+		// the path between client and server is cut for a while and heals: shorter than the
+		// span of a transaction's retransmissions, so no transaction loses all of them
+		total := int64(0)
+		for _, o := range p.Ops {
+			total += o.At.GapNS
+		}
+		var writeAt []int64
+		acc := int64(0)
+		for _, o := range p.Ops {
+			acc += o.At.GapNS
+			if o.Kind == "writeto" {
+				writeAt = append(writeAt, acc)
+			}
+		}
+		for k := r.Range(1, 3); k > 0; k-- {
+			// inside work: just before an application write (its CreatePermission / ChannelBind
+			// then start inside the cut), at a permission-refresh tick, or anywhere
+			at := 10*sec + int64(r.Intn(int(total/sec)+1))*sec + int64(r.Intn(1000))*ms
+			switch r.Intn(3) {
+			case 0:
+				if len(writeAt) > 0 {
+					at = writeAt[r.Intn(len(writeAt))] - int64(r.Range(1, 300))*ms
+				}
+			case 1:
+				at = int64(r.Range(1, int(total/(120*sec))+1))*120*sec + int64(r.Range(0, 600))*ms
+			}
+			if at < sec {
+				at = sec
+			}
+			d := r.PickI64([]int64{300 * ms, sec, 2 * sec, 4 * sec})
+			p.NetFaults = append(p.NetFaults, NetFault{M: Match{Flow: "c1>srv"}, Do: "partition", Arg: d, AtNS: at},
+				NetFault{M: Match{Flow: "srv>c1"}, Do: "partition", Arg: d, AtNS: at})
+		}
+		p.Flavor += "+partition"
+	}
 	if p.Cfg.Listener == "tcp" {
 		p.Flavor += "-tcp"
 		p.Ops[0].At = gap(sec) // the control connection has to be up before the first call
